@@ -53,6 +53,9 @@ type Case struct {
 	// --mode metricdb (C08): databases the statement is executed over (model/LogqlMetricExec.v)
 	Dbs   []XDB  `json:"dbs,omitempty"`
 	DbsML string `json:"dbs_ml,omitempty"`
+	// the implementation's statement parsed back into the tree of model/Sql.v (impltree.go), for the cases that carry databases
+	SqlTreeML  string `json:"sql_tree_ml,omitempty"`
+	SqlTreeErr string `json:"sql_tree_err,omitempty"`
 }
 
 // ---------------------------------------------------------------- AST -> Coq
@@ -318,6 +321,10 @@ func run(c *Case) {
 			return
 		}
 		c.SQL = append(c.SQL, str)
+	}
+	c.SqlTreeML, c.SqlTreeErr = "", ""
+	if len(c.Dbs) > 0 && len(c.SQL) > 0 {
+		c.SqlTreeML, c.SqlTreeErr = implTree(c.SQL[0])
 	}
 }
 
